@@ -68,6 +68,18 @@ def cases(rng, tier):
         yield ("weights", {"rows": [[frac(Fraction(1, 8))] * 8] * 3, "N": frac(Fraction(n_)), "seed": rng.randrange(1 << 30), "always_oracle": n_ == 49})
     yield ("weights", {"rows": [[frac(Fraction(x, 64)) for x in (40, 8, 8, 8)], [frac(Fraction(1, 8))] * 8, [frac(Fraction(1, 8))] * 8], "N": frac(Fraction(49)),
                        "seed": rng.randrange(1 << 30)})
+    # probabilities that differ by less than 1e-12 (2^-42) around the threshold 1/N: the larger one is at least 1/N and exact, the smaller one is
+    # sampled (dyadic and multiplied only by powers of two, so the float products are exact); listed larger-first, smaller-first, alone and as the second / first of two vectors
+    e = Fraction(1, 2 ** 42)
+    near = [Fraction(1, 2), Fraction(1, 4) + e, Fraction(1, 4) - e]
+    for rows_, n_ in (([near], 4), ([[near[0], near[2], near[1]]], 4), ([[Fraction(1, 2), Fraction(1, 2)], near], 8), ([near, [Fraction(1, 2), Fraction(1, 2)]], 8),
+                      ([[near[2], near[1], near[0]]], 4), ([[Fraction(1, 4) + e, Fraction(1, 4), Fraction(1, 4), Fraction(1, 4) - e]], 4)):
+        yield ("weights", {"rows": [[frac(x) for x in r] for r in rows_], "N": frac(Fraction(n_)), "seed": rng.randrange(1 << 30), "always_oracle": True})
+    # one basis object repeated by identity (`[basis] * L`): the joint minimum is the L-th power of the basis minimum; budgets inside, at and
+    # outside the window between the basis minimum and the joint minimum
+    for row8, L_, n_ in (([4, 2, 2], 2, 8), ([4, 2, 2], 2, 4), ([4, 2, 2], 2, 16), ([4, 2, 2], 3, 20), ([4, 4], 3, 5), ([2, 2, 2, 2], 2, 6), ([6, 1, 1], 2, 30)):
+        yield ("weights", {"rows": [[frac(Fraction(x, 8)) for x in row8]] * L_, "signs": [[1] * len(row8)] * L_, "old": [None] * L_, "bases": True,
+                           "same_object": True, "N": frac(Fraction(n_)), "seed": rng.randrange(1 << 30), "always_oracle": True})
     for _ in range(N):
         L = rng.randint(1, 4)
         rows = []
@@ -206,6 +218,9 @@ def _run_weights(payload, forced=None):
                     except ValueError:
                         pass
             bases.append(b)
+        if payload.get("same_object"):
+            # one and the same basis object at every position (all rows equal): `[basis] * L`, as a caller that re-uses a decomposition writes it
+            bases = [bases[0]] * len(bases)
     old = np.random.choice
     np.random.choice = sc
     try:
